@@ -15,28 +15,42 @@ void genH(const json &in, json &out) {
     constexpr size_t p = decltype(P)::value;
     if constexpr (p <= 5) {
       out["knots_after"] = json::array();
-      guarded(out, "out", [&] {
-        std::vector<Spline<T, p>> r;
-        if (route == 0) {
-          // in threaded mode the generator is a shared const object (C18)
-          const auto gp = cached<bspline::BSplineGenerator<T>>(std::string("Gen") + Codec<T>::name + in.at("knots").dump(),
-                                                              [&] { return new bspline::BSplineGenerator<T>(knots); });
-          const bspline::BSplineGenerator<T> &gen = *gp;
-          r = gen.template generateBSplines<p>();
-          out["ggrid"] = projGrid(gen.getGrid());
-        } else if (route == 1) {
-          VH_OPERAND Grid<T> g(decVec<T>(in.at("grid")));
-          const bspline::BSplineGenerator<T> gen(knots, g);
-          r = gen.template generateBSplines<p>();
-          out["ggrid"] = projGrid(gen.getGrid());
-          out["grid_shared"] = (gen.getGrid().getData().get() == g.getData().get()) ? 1 : 0;
-        } else {
-          r = bspline::generateBSplines<p>(knots);
-        }
-        json a = json::array();
-        for (const auto &s : r) a.push_back(projSpline(s));
-        out["res"] = a;
-      });
+      // construction and generation are separate public calls with separate outcomes: "ctor" is the
+      // constructor's (accepts exactly the valid knot vectors / matching grids), "out" the overall one
+      std::shared_ptr<const bspline::BSplineGenerator<T>> gp;
+      std::optional<Grid<T>> g;
+      bool built = true;
+      if (route == 0) {
+        // in threaded mode the generator is a shared const object (C18)
+        built = guarded(out, "ctor", [&] {
+          gp = cached<bspline::BSplineGenerator<T>>(std::string("Gen") + Codec<T>::name + in.at("knots").dump(),
+                                                   [&] { return new bspline::BSplineGenerator<T>(knots); });
+        });
+      } else if (route == 1) {
+        built = guarded(out, "ctor", [&] {
+          g.emplace(decVec<T>(in.at("grid")));
+          gp = std::make_shared<const bspline::BSplineGenerator<T>>(knots, *g);
+        });
+      }
+      if (!built) {
+        for (const char *k : {"", "_code", "_what"})
+          if (out.contains(std::string("ctor") + k)) out[std::string("out") + k] = out[std::string("ctor") + k];
+      } else {
+        guarded(out, "out", [&] {
+          std::vector<Spline<T, p>> r;
+          if (route == 2) {
+            r = bspline::generateBSplines<p>(knots);
+          } else {
+            const bspline::BSplineGenerator<T> &gen = *gp;
+            r = gen.template generateBSplines<p>();
+            out["ggrid"] = projGrid(gen.getGrid());
+            if (route == 1) out["grid_shared"] = (gen.getGrid().getData().get() == g->getData().get()) ? 1 : 0;
+          }
+          json a = json::array();
+          for (const auto &s : r) a.push_back(projSpline(s));
+          out["res"] = a;
+        });
+      }
       out["knots_after"] = encVec(knots);
     }
   });
